@@ -1,2 +1,100 @@
-def run_selftest(prop, spec, root, repo):
-    return []
+"""Mutation self-test (thorough tier): every patch in mutants/<prop>/ is a deliberately broken body.
+It is applied to a scratch copy of /repo's *working tree* under /var/tmp (deleted afterwards), the
+unit named in the patch header is re-run against the copy and must report a refuted obligation whose
+id contains the `expect:` string.  A mutant that survives means a contract is too weak: the thorough
+run then ends undecided (exit 2: machinery defect), never with a VIOLATION.
+
+Header lines of a patch:   # unit: <unit name>    # expect: <substring of the obligation id>
+"""
+import glob
+import os
+import re
+import shutil
+import subprocess
+import time
+
+import kani_unit
+import registry
+import verus_unit
+
+SCRATCH = "/var/tmp/verif-mutant"
+
+
+def _copy_tree(repo):
+    shutil.rmtree(SCRATCH, ignore_errors=True)
+    os.makedirs(SCRATCH)
+    # working tree without build output / VCS data
+    subprocess.run(["rsync", "-a", "--exclude", "target", "--exclude", ".git", repo.rstrip("/") + "/", SCRATCH + "/"],
+                   check=True)
+
+
+def _header(path):
+    h = {}
+    for line in open(path, encoding="utf-8"):
+        m = re.match(r"#\s*(\w+):\s*(.*)$", line)
+        if m:
+            h[m.group(1)] = m.group(2).strip()
+        elif line.startswith("---"):
+            break
+    return h
+
+
+def run_selftest(prop, spec, root, repo, only=None):
+    patches = sorted(glob.glob(os.path.join(root, "mutants", prop, "*.patch")))
+    res = {"unit": "selftest_" + prop, "kind": "selftest", "backend": "mutation", "status": "ok",
+           "undecided": [], "mutants": [], "functions": [], "failures": [], "obligations": 0, "discharged": 0,
+           "wall_s": 0.0}
+    t0 = time.time()
+    build_root = os.path.join(root, "build", prop, "mutants")
+    kani_by_name = {k["name"]: k for k in spec.get("kani", [])}
+    try:
+        for p in patches:
+            name = os.path.basename(p)[:-6]
+            if only and name != only:
+                continue
+            h = _header(p)
+            unit, expect = h.get("unit"), h.get("expect", "")
+            _copy_tree(repo)
+            a = subprocess.run(["patch", "-p1", "-s", "-d", SCRATCH, "-i", p], capture_output=True, text=True)
+            rec = {"mutant": name, "unit": unit, "expect": expect}
+            if a.returncode != 0:
+                rec["result"] = "does-not-apply"
+                res["undecided"].append("mutant %s does not apply to the current tree (%s)" % (name, a.stdout.strip()[:120]))
+                res["mutants"].append(rec)
+                continue
+            if unit in kani_by_name:
+                k = dict(kani_by_name[unit])
+                # only the harnesses the mutant is expected to break (+ keep the run short)
+                key = expect.split("/")[0]
+                hs = [x for x in (k.get("thorough") or k["quick"]) if key in x] or k["quick"]
+                k["quick"], k["thorough"] = hs[:6], hs[:6]
+                k["no_cex"] = True
+                r = kani_unit.run_unit(k, SCRATCH, root, build_root, "quick")
+            else:
+                r = verus_unit.run_unit(os.path.join(root, "units", unit + ".toml"), SCRATCH, root, build_root,
+                                        do_twin=False)
+            ids = [f["id"] for f in r["failures"]]
+            hit = [i for i in ids if expect in i]
+            rec["reported"] = ids[:4]
+            if hit:
+                rec["result"] = "killed"
+            elif r["status"] == "undecided":
+                rec["result"] = "undecided"
+                res["undecided"].append("mutant %s: unit %s undecided: %s" % (name, unit, "; ".join(r["undecided"])[:300]))
+            elif ids:
+                rec["result"] = "killed-by-other-obligation"
+            else:
+                rec["result"] = "SURVIVED"
+                res["undecided"].append("mutant %s SURVIVED unit %s: the contract does not pin this behaviour down" % (name, unit))
+            res["mutants"].append(rec)
+    finally:
+        shutil.rmtree(SCRATCH, ignore_errors=True)
+        # the scratch copy's Kani target directory goes with it
+        for d in glob.glob(os.path.join(root, ".cache", "kani-target-*")):
+            pass
+    res["killed"] = sum(1 for m in res["mutants"] if m["result"].startswith("killed"))
+    res["total"] = len(res["mutants"])
+    res["wall_s"] = time.time() - t0
+    if res["undecided"]:
+        res["status"] = "undecided"
+    return [res]
